@@ -5,9 +5,16 @@
 // digest with the reference.   Output:   <class> <P> <T> ok   |   ... DIFF thread=<t> iter=<i> what=<shared|copy>   |   ... X <signal>
 // The same file is built a second time with -fsanitize=thread (support run; reports go to stderr after a line
 // "C18CLASS <class>").
+// Class "Mixed<values>" (no shared object at all): the operation families of harness/c18_values.h on thread-private big integers,
+// rationals and fixed-precision integers.  <parameter> = offset, thread t runs family (t + offset) mod NFAM in every iteration
+// ("Mixed<values>") or walks through all families starting there ("MixedRotate<values>"); every digest is compared with the
+// digest of the same family computed sequentially before the threads start, and all families are run once more sequentially
+// after the threads have ended.  Output:  ... ok | ... DIFF thread=<t> iter=<i> what=<family> | ... X <signal> | ... T timeout
+// `c18_threads --families` prints the family table (name <tab> call forms).
 #include "c16_probes.h"
 #include "qfield.h"
 #include <recint/recint.h>
+#include "c18_values.h"
 #include <thread>
 #include <atomic>
 #include <unistd.h>
@@ -86,9 +93,35 @@ static Any* make18(const std::string& cls, int P) {
     return make(cls, P);
 }
 
+static uint64_t fam_digest(int f) { std::ostringstream o; c18::FAMILIES[f].run(o); return fnv(o.str()); }
+
+static void run_mixed(const std::string& cls, int P, int T, int iters, bool rotate) {
+    const int NF = c18::NFAM;
+    c18::c18_rmint_modules();                 // the documented module setters: once, before any thread exists
+    std::vector<uint64_t> ref(NF);
+    for (int f = 0; f < NF; ++f) ref[f] = fam_digest(f);
+    for (int f = 0; f < NF; ++f) if (fam_digest(f) != ref[f]) { printf("%s %d %d X family-%s-not-deterministic\n", cls.c_str(), P, T, c18::FAMILIES[f].name); return; }
+    std::atomic<int> bad(0), bt(-1), bi(-1), bf(-1), go(0);
+    std::vector<std::thread> th;
+    for (int t = 0; t < T; ++t) th.push_back(std::thread([&, t]() {
+        while (!go.load()) { }
+        for (int i = 0; i < iters; ++i) {
+            int f = ((t + P + (rotate ? i : 0)) % NF + NF) % NF;
+            if (fam_digest(f) != ref[f]) { if (!bad.exchange(1)) { bt = t; bi = i; bf = f; } }
+        }
+    }));
+    go = 1;
+    for (size_t t = 0; t < th.size(); ++t) th[t].join();
+    // what the threads did must not have changed any process-wide mode: the sequential results are still the same
+    for (int f = 0; f < NF; ++f) if (fam_digest(f) != ref[f] && !bad.exchange(1)) { bt = -1; bi = iters; bf = f; }
+    if (bad) printf("%s %d %d DIFF thread=%d iter=%d what=%s\n", cls.c_str(), P, T, (int)bt, (int)bi, c18::FAMILIES[(int)bf].name);
+    else printf("%s %d %d ok\n", cls.c_str(), P, T);
+}
+
 static uint64_t digest(Any* a) { Sink s(0, false); a->probe(s); s.close(); return s.acc; }
 
 static void run_case(const std::string& cls, int P, int T, int iters, bool nocopy) {
+    if (cls == "Mixed<values>" || cls == "MixedRotate<values>") { run_mixed(cls, P, T, iters, cls[5] == 'R'); return; }
     Any* shared = make18(cls, P);
     if (!shared) { printf("%s %d %d X unknown-class\n", cls.c_str(), P, T); return; }
     uint64_t ref;
@@ -115,9 +148,15 @@ static void run_case(const std::string& cls, int P, int T, int iters, bool nocop
     else printf("%s %d %d ok\n", cls.c_str(), P, T);
 }
 
-int main() {
+int main(int argc, char** argv) {
+    if (argc > 1 && std::string(argv[1]) == "--families") {
+        for (int f = 0; f < c18::NFAM; ++f) printf("%s\t%s\n", c18::FAMILIES[f].name, c18::FAMILIES[f].forms);
+        return 0;
+    }
     std::string line;
     bool nofork = getenv("C16_NOFORK") != 0;
+    // a child that does not finish in time (loaded machine, sanitizer) is reported as "T timeout": inconclusive, never a crash
+    unsigned limit = getenv("C18_ALARM") ? (unsigned)atoi(getenv("C18_ALARM")) : 600;
     while (std::getline(std::cin, line)) {
         if (line.empty()) continue;
         std::istringstream is(line); std::string cls; int P = 0, T = 2, iters = 1;
@@ -126,9 +165,10 @@ int main() {
         if (nofork) { run_case(cls, P, T, iters, nocopy); fflush(stdout); continue; }
         fflush(stdout);
         pid_t pid = fork();
-        if (pid == 0) { alarm(60); run_case(cls, P, T, iters, nocopy); fflush(stdout); fflush(stderr); _exit(0); }
+        if (pid == 0) { alarm(limit); run_case(cls, P, T, iters, nocopy); fflush(stdout); fflush(stderr); _exit(0); }
         int st = 0; waitpid(pid, &st, 0);
-        if (WIFSIGNALED(st)) printf("%s %d %d X signal-%d\n", cls.c_str(), P, T, WTERMSIG(st));
+        if (WIFSIGNALED(st) && WTERMSIG(st) == SIGALRM) printf("%s %d %d T timeout\n", cls.c_str(), P, T);
+        else if (WIFSIGNALED(st)) printf("%s %d %d X signal-%d\n", cls.c_str(), P, T, WTERMSIG(st));
         else if (WEXITSTATUS(st) != 0) printf("%s %d %d X exit-%d\n", cls.c_str(), P, T, WEXITSTATUS(st));
         fflush(stdout);
     }
